@@ -324,12 +324,18 @@ static void run_execution(vh::Rng &rng, uint64_t seed, int xno) {
             {   CallGuard cg; a.join(); b.join(); }
         }
         // the process forks: the child's (only) thread is a thread of its own, its records carry its own id
-        if (rng.chance(35)) {
+        if (rng.chance(50)) {
             for (int s = 2; s <= 3; ++s) if (en[s]) disable_sink(s);
             if (!en[1]) { sinks[1]->enable(); en[1] = true; emit(J("enabled") + kv("s", 1) + "}"); }
             if (rng.chance(60)) fork_and_log(rng, seqs[5], mx);
             // only the synchronous sink is enabled and nobody is logging: the name behind the shared address changes WITHOUT any threshold
             // being set in between, and a short second batch logs through it (and through the literal names)
+            {   // the last record before the change goes through the shared address, too (whatever a sink remembered about it is now stale)
+                { std::lock_guard<std::mutex> g(g_tidm); g_th_of_tid[syscall(SYS_gettid)] = 5; }
+                tl_th = 5;
+                CallSpec c; c.lvl = (int)rng.range(0, 7); c.mod = g_dyn_idx; c.dyn = true; c.fn = 0; c.file = 1; c.line = 5; c.len = 9; c.args = false;
+                logger(5, std::vector<CallSpec>{c}, seqs[5]); seqs[5] += 1;
+            }
             g_dyn_idx = (g_dyn_idx + 1 + (int)rng.below(2)) % 3; strcpy(g_dynmod, MODS[g_dyn_idx]);
             std::vector<std::thread> th2;
             int nth2 = (int)rng.range(1, 2);
@@ -339,7 +345,7 @@ static void run_execution(vh::Rng &rng, uint64_t seed, int xno) {
                 for (int i = 0; i < n; ++i) {
                     CallSpec c; c.lvl = (int)rng.range(-1, 8); c.mod = (int)rng.below(3); c.fn = (int)rng.below(2); c.file = (int)rng.below(3); c.line = (int)rng.range(1, 9999);
                     c.len = (size_t)rng.range(0, 40); c.args = rng.chance(50);
-                    if (rng.chance(70)) { c.dyn = true; c.mod = g_dyn_idx; }
+                    if (i == 0 || rng.chance(70)) { c.dyn = true; c.mod = g_dyn_idx; }
                     calls.push_back(c);
                 }
                 th2.emplace_back(logger, t, calls, seqs[t]); seqs[t] += n;
